@@ -12,11 +12,9 @@ reading Peek once per message.  Spec (Spec/C14): the documented stack, where UnB
 "No effect if there is no stack".  The model is tied to /repo by the differential run of a real
 actor in a real actor system (harness/verifdrv/c14) on every check.
 
-Result on the current tree: the code is EXACTLY the naive stack for all op sequences
-(`C14_plain_holds`, no guard), which coincides with the documented stack on every sequence that
-never calls UnBecomeStacked with nothing stacked (`C14_partial`).  On the remaining sequences the
-code pops the base behaviour and the actor silently ignores every later message, forever
-(`C14_refuted`, `deaf_absorbing`): finding C14-F1.
+Result on the current tree (after fix c9f88bb — UnBecome clears — and the fix that keeps the base
+behaviour in unsetBehaviorStacked, finding C14-F1): the code IS the documented stack for all
+message streams and all switch scripts, no guard (`C14_holds`).
 -/
 import GoaktVerif.Model.C14
 import GoaktVerif.Spec.C14
@@ -24,22 +22,45 @@ import GoaktVerif.Spec.C14
 namespace GoaktVerif.C14
 open GoaktVerif.Model.C14 GoaktVerif.Spec.C14
 
-/-! ### the code is a stack: state after any call = naive stack op on the node list -/
+/-- representation invariant of the PID's behaviour stack: the `length` counter equals the number
+    of linked nodes (so the `Len() > 1` guard of unsetBehaviorStacked is truthful) and at least one
+    behaviour is present -/
+structure Good (p : PID) : Prop where
+  len : p.stack.length = p.stack.nodes.length
+  nonempty : p.stack.nodes ≠ []
+
+theorem good_init (d : Beh) : Good (PID.init d) := ⟨rfl, by simp [PID.init, BStack.push, BStack.new]⟩
 
 theorem applyOp_dflt (p : PID) (op : Op) : (applyOp p op).dflt = p.dflt := by
-  cases op <;> rfl
-
-theorem applyOp_nodes (p : PID) (op : Op) :
-    (applyOp p op).stack.nodes = plainOp p.dflt p.stack.nodes op := by
   cases op with
   | become b => rfl
   | becomeStacked b => rfl
   | unbecome => rfl
-  | unbecomeStacked =>
-    simp only [applyOp, unsetBehaviorStacked, BStack.pop, plainOp]
-    cases h : p.stack.nodes <;> simp [h]
+  | unbecomeStacked => simp only [applyOp, unsetBehaviorStacked]; split <;> rfl
 
-/-- the `length` counter always equals the number of linked nodes (so `Len`/`IsEmpty` are truthful) -/
+theorem unset_cases (p : PID) (h : p.stack.length = p.stack.nodes.length) :
+    (unsetBehaviorStacked p).stack.nodes = if p.stack.nodes.length ≤ 1 then p.stack.nodes else p.stack.nodes.tail := by
+  unfold unsetBehaviorStacked BStack.len
+  rw [h]
+  by_cases h1 : p.stack.nodes.length > 1
+  · have h3 : ¬ p.stack.nodes.length ≤ 1 := by omega
+    rw [if_pos h1, if_neg h3]
+    simp only [BStack.pop]
+    cases hn : p.stack.nodes with
+    | nil => rw [hn] at h1; simp at h1
+    | cons x xs => rfl
+  · have h3 : p.stack.nodes.length ≤ 1 := by omega
+    rw [if_neg h1, if_pos h3]
+
+/-- each call acts on the node list exactly as the documentation says -/
+theorem applyOp_nodes (p : PID) (op : Op) (h : p.stack.length = p.stack.nodes.length) :
+    (applyOp p op).stack.nodes = docOp p.dflt p.stack.nodes op := by
+  cases op with
+  | become b => rfl
+  | becomeStacked b => rfl
+  | unbecome => rfl
+  | unbecomeStacked => exact unset_cases p h
+
 theorem applyOp_len_inv (p : PID) (op : Op) (h : p.stack.length = p.stack.nodes.length) :
     (applyOp p op).stack.length = (applyOp p op).stack.nodes.length := by
   cases op with
@@ -47,32 +68,58 @@ theorem applyOp_len_inv (p : PID) (op : Op) (h : p.stack.length = p.stack.nodes.
   | becomeStacked b => simp [applyOp, setBehaviorStacked, BStack.push, h]
   | unbecome => rfl
   | unbecomeStacked =>
-    simp only [applyOp, unsetBehaviorStacked, BStack.pop]
-    cases hn : p.stack.nodes with
-    | nil => simp [h, hn]
-    | cons x xs => simp [h, hn]
+    simp only [applyOp, unsetBehaviorStacked]
+    split
+    · simp only [BStack.pop]
+      cases hn : p.stack.nodes with
+      | nil => simp [h, hn]
+      | cons x xs => simp [h, hn]
+    · exact h
+
+/-- the documented stack is never empty -/
+theorem doc_nonempty (d : Beh) (s : List Beh) (hs : s ≠ []) (op : Op) : docOp d s op ≠ [] := by
+  cases op with
+  | become b => simp [docOp]
+  | becomeStacked b => simp [docOp]
+  | unbecome => simp [docOp]
+  | unbecomeStacked =>
+    simp only [docOp]
+    split
+    · exact hs
+    · match s with
+      | [] => exact absurd rfl hs
+      | [_] => simp at *
+      | _ :: _ :: _ => simp
+
+theorem doc_fold_nonempty (d : Beh) (s : List Beh) (hs : s ≠ []) (m : List Op) : m.foldl (docOp d) s ≠ [] := by
+  induction m generalizing s with
+  | nil => exact hs
+  | cons op ops ih => exact ih _ (doc_nonempty d s hs op)
+
+theorem good_applyOp (p : PID) (op : Op) (h : Good p) : Good (applyOp p op) :=
+  ⟨applyOp_len_inv p op h.len, by rw [applyOp_nodes p op h.len]; exact doc_nonempty _ _ h.nonempty op⟩
 
 /-- regression statement for fix c9f88bb: whatever was stacked, after UnBecome exactly the default remains -/
 theorem unbecome_clears (p : PID) : (applyOp p .unbecome).stack.nodes = [p.dflt] := rfl
+
+/-- regression statement for finding C14-F1: UnBecomeStacked never removes the last behaviour -/
+theorem unbecomeStacked_keeps_base (p : PID) (h : Good p) : (applyOp p .unbecomeStacked).stack.nodes ≠ [] :=
+  (good_applyOp p _ h).nonempty
 
 theorem exec_dflt (b : Beh) (p : PID) (ops : List Op) : (exec b p ops).2.dflt = p.dflt := by
   induction ops generalizing p with
   | nil => rfl
   | cons op ops ih => simp only [exec]; rw [ih, applyOp_dflt]
 
-theorem exec_nodes (b : Beh) (p : PID) (ops : List Op) :
-    (exec b p ops).2.stack.nodes = ops.foldl (plainOp p.dflt) p.stack.nodes := by
+theorem exec_nodes (b : Beh) (p : PID) (ops : List Op) (h : Good p) :
+    (exec b p ops).2.stack.nodes = ops.foldl (docOp p.dflt) p.stack.nodes ∧ Good (exec b p ops).2 := by
   induction ops generalizing p with
-  | nil => rfl
+  | nil => exact ⟨rfl, h⟩
   | cons op ops ih =>
     simp only [exec, List.foldl_cons]
-    rw [ih, applyOp_dflt, applyOp_nodes]
-
-theorem exec_len_inv (b : Beh) (p : PID) (ops : List Op) (h : p.stack.length = p.stack.nodes.length) :
-    (exec b p ops).2.stack.length = (exec b p ops).2.stack.nodes.length := by
-  induction ops generalizing p with
-  | nil => exact h
-  | cons op ops ih => simp only [exec]; exact ih _ (applyOp_len_inv p op h)
+    have := ih (applyOp p op) (good_applyOp p op h)
+    rw [applyOp_dflt, applyOp_nodes p op h.len] at this
+    exact this
 
 /-- every call made while a message is handled is made by the behaviour that was entered -/
 theorem exec_events (b : Beh) (p : PID) (ops : List Op) :
@@ -92,21 +139,15 @@ theorem handle_handler (p : PID) (m : List Op) : (handleReceived p m).1 = p.stac
   unfold handleReceived BStack.peek
   cases p.stack.nodes.head? <;> rfl
 
-/-- state after a message: the naive stack ops applied — unless there was no handler, then nothing ran -/
-theorem handle_nodes (p : PID) (m : List Op) :
-    (handleReceived p m).2.2.stack.nodes =
-      if p.stack.nodes = [] then [] else m.foldl (plainOp p.dflt) p.stack.nodes := by
+theorem handle_nodes (p : PID) (m : List Op) (h : Good p) :
+    (handleReceived p m).2.2.stack.nodes = m.foldl (docOp p.dflt) p.stack.nodes ∧ Good (handleReceived p m).2.2 := by
   unfold handleReceived BStack.peek
-  cases h : p.stack.nodes with
-  | nil => simp [h]
-  | cons x xs => simp only [List.head?_cons]; rw [exec_nodes, h]; simp
-
-theorem handle_len_inv (p : PID) (m : List Op) (h : p.stack.length = p.stack.nodes.length) :
-    (handleReceived p m).2.2.stack.length = (handleReceived p m).2.2.stack.nodes.length := by
-  unfold handleReceived
-  cases p.stack.peek with
-  | none => exact h
-  | some b => exact exec_len_inv b p m h
+  match hn : p.stack.nodes, h.nonempty with
+  | x :: xs, _ =>
+    simp only [List.head?_cons]
+    have := exec_nodes x p m h
+    rw [hn] at this
+    exact this
 
 /-- "The message being handled always finishes under the behavior that started it": the behaviour
     is read once (Peek at the start); every later call of the same message is executed by that
@@ -127,111 +168,41 @@ theorem C14_inprogress (p : PID) (m : List Op) :
 example : (handleReceived (PID.init 0) [.becomeStacked 7, .becomeStacked 8]).2.1 = [(0, .becomeStacked 7), (0, .becomeStacked 8)]
     ∧ (applyOp (PID.init 0) (.becomeStacked 7)).stack.peek = some 7 := by decide
 
-/-! ### whole runs -/
+/-! ### whole runs: the code refines the documented stack -/
 
-/-- an actor whose stack is empty never gets a behaviour back by itself: no handler runs, so no
-    switch call can ever be made (only Restart, which is outside this model, re-pushes the default) -/
-theorem deaf_absorbing (p : PID) (h : p.stack.nodes = []) (msgs : List (List Op)) :
-    (run p msgs).1 = List.replicate msgs.length none ∧ (run p msgs).2 = p := by
-  induction msgs with
-  | nil => exact ⟨rfl, rfl⟩
-  | cons m ms ih =>
-    have hp : p.stack.peek = none := by simp [BStack.peek, h]
-    simp only [run, handleReceived, hp, List.length_cons, List.replicate_succ]
-    exact ⟨by rw [ih.1], ih.2⟩
-
-/-- The code is the naive stack, for ALL message streams and ALL switch scripts (no guard):
-    handler of each message = top of the naive stack at the start of that message, where a
-    message that finds the stack empty has no handler and its script does not run. -/
-theorem run_eq_plain (p : PID) (msgs : List (List Op)) :
-    (run p msgs).1 = plainHandlersFrom p.dflt p.stack.nodes msgs := by
+theorem run_eq_doc (p : PID) (msgs : List (List Op)) (h : Good p) :
+    (run p msgs).1 = handlers (docOp p.dflt) p.stack.nodes msgs := by
   induction msgs generalizing p with
   | nil => rfl
   | cons m ms ih =>
-    simp only [run, plainHandlersFrom]
-    rw [ih, handle_handler, handle_dflt, handle_nodes]
+    have hn := handle_nodes p m h
+    simp only [run, handlers]
+    rw [ih _ hn.2, handle_handler, handle_dflt, hn.1]
 
-/-- and the stack a stream leaves behind is the naive stack's -/
-theorem run_nodes_plain (p : PID) (msgs : List (List Op)) :
-    (run p msgs).2.stack.nodes = plainFinalFrom p.dflt p.stack.nodes msgs := by
+theorem run_final (p : PID) (msgs : List (List Op)) (h : Good p) :
+    (run p msgs).2.stack.nodes = docFinalFrom p.dflt p.stack.nodes msgs ∧ Good (run p msgs).2 := by
+  induction msgs generalizing p with
+  | nil => exact ⟨rfl, h⟩
+  | cons m ms ih =>
+    have hn := handle_nodes p m h
+    simp only [run, docFinalFrom]
+    have := ih _ hn.2
+    rw [handle_dflt, hn.1] at this
+    exact this
+
+theorem run_events (p : PID) (msgs : List (List Op)) (h : Good p) :
+    runEvents p msgs = docEvents p.dflt p.stack.nodes msgs := by
   induction msgs generalizing p with
   | nil => rfl
   | cons m ms ih =>
-    simp only [run, plainFinalFrom]
-    rw [ih, handle_dflt, handle_nodes]
-
-theorem run_len_inv (p : PID) (msgs : List (List Op)) (h : p.stack.length = p.stack.nodes.length) :
-    (run p msgs).2.stack.length = (run p msgs).2.stack.nodes.length := by
-  induction msgs generalizing p with
-  | nil => exact h
-  | cons m ms ih => simp only [run]; exact ih _ (handle_len_inv p m h)
-
-/-! ### naive stack = documented stack on well-formed scripts -/
-
-theorem wf_script_agree (d : Beh) (s : List Beh) (m : List Op) (hs : s ≠ []) (hw : wfScript d s m = true) :
-    m.foldl (plainOp d) s = m.foldl (docOp d) s ∧ m.foldl (docOp d) s ≠ [] := by
-  induction m generalizing s with
-  | nil => exact ⟨rfl, hs⟩
-  | cons op ops ih =>
-    simp only [wfScript, Bool.and_eq_true] at hw
-    have hstep : plainOp d s op = docOp d s op ∧ docOp d s op ≠ [] := by
-      cases op with
-      | become b => exact ⟨rfl, by simp [docOp]⟩
-      | becomeStacked b => exact ⟨rfl, by simp [docOp]⟩
-      | unbecome => exact ⟨rfl, by simp [docOp]⟩
-      | unbecomeStacked =>
-        have h2 : 2 ≤ s.length := by simpa using hw.1
-        have : ¬ s.length ≤ 1 := by omega
-        simp only [plainOp, docOp, this, if_false, true_and]
-        match s, h2 with
-        | _ :: _ :: _, _ => simp
-    simp only [List.foldl_cons]
-    rw [hstep.1]
-    exact ih _ hstep.2 hw.2
-
-theorem wf_handlers_agree (d : Beh) (s : List Beh) (msgs : List (List Op)) (hs : s ≠ [])
-    (hw : wfFrom d s msgs = true) :
-    plainHandlersFrom d s msgs = handlers (docOp d) s msgs := by
-  induction msgs generalizing s with
-  | nil => rfl
-  | cons m ms ih =>
-    simp only [wfFrom, Bool.and_eq_true] at hw
-    have ha := wf_script_agree d s m hs hw.1
-    simp only [plainHandlersFrom, handlers, hs, if_false]
-    rw [ha.1]
-    exact congrArg _ (ih _ ha.2 hw.2)
-
-theorem wf_final_agree (d : Beh) (s : List Beh) (msgs : List (List Op)) (hs : s ≠ [])
-    (hw : wfFrom d s msgs = true) :
-    plainFinalFrom d s msgs = docFinalFrom d s msgs := by
-  induction msgs generalizing s with
-  | nil => rfl
-  | cons m ms ih =>
-    simp only [wfFrom, Bool.and_eq_true] at hw
-    have ha := wf_script_agree d s m hs hw.1
-    simp only [plainFinalFrom, docFinalFrom, hs, if_false]
-    rw [ha.1]
-    exact ih _ ha.2 hw.2
-
-/-- the documented stack is never empty, so the documentation promises a handler for every message -/
-theorem doc_nonempty (d : Beh) (s : List Beh) (hs : s ≠ []) (op : Op) : docOp d s op ≠ [] := by
-  cases op with
-  | become b => simp [docOp]
-  | becomeStacked b => simp [docOp]
-  | unbecome => simp [docOp]
-  | unbecomeStacked =>
-    simp only [docOp]
-    split
-    · exact hs
-    · match s with
-      | [] => exact absurd rfl hs
-      | [_] => simp at *
-      | _ :: _ :: _ => simp
-
-theorem doc_fold_nonempty (d : Beh) (s : List Beh) (hs : s ≠ []) (m : List Op) : m.foldl (docOp d) s ≠ [] := by
-  induction m generalizing s with
-  | nil => exact hs
-  | cons op ops ih => exact ih _ (doc_nonempty d s hs op)
+    have hn := handle_nodes p m h
+    simp only [runEvents, docEvents]
+    congr 1
+    · unfold handleReceived BStack.peek
+      match hN : p.stack.nodes, h.nonempty with
+      | x :: xs, _ => simp [exec_events]
+    · have := ih _ hn.2
+      rw [this, handle_dflt, hn.1]
 
 theorem doc_handlers_some (d : Beh) (s : List Beh) (hs : s ≠ []) (msgs : List (List Op)) :
     ∀ h ∈ handlers (docOp d) s msgs, h.isSome = true := by
@@ -245,25 +216,6 @@ theorem doc_handlers_some (d : Beh) (s : List Beh) (hs : s ≠ []) (msgs : List 
       | _ :: _, _ => rfl
     · exact ih _ (doc_fold_nonempty d s hs m) h hh
 
-/-- events: the code's per-message calls are attributed exactly as the documentation says -/
-theorem events_agree (p : PID) (msgs : List (List Op)) (hs : p.stack.nodes ≠ [])
-    (hw : wfFrom p.dflt p.stack.nodes msgs = true) :
-    runEvents p msgs = docEvents p.dflt p.stack.nodes msgs := by
-  induction msgs generalizing p with
-  | nil => rfl
-  | cons m ms ih =>
-    simp only [wfFrom, Bool.and_eq_true] at hw
-    have ha := wf_script_agree p.dflt p.stack.nodes m hs hw.1
-    have hnodes : (handleReceived p m).2.2.stack.nodes = m.foldl (docOp p.dflt) p.stack.nodes := by
-      rw [handle_nodes, if_neg hs, ha.1]
-    simp only [runEvents, docEvents]
-    congr 1
-    · unfold handleReceived BStack.peek
-      match hN : p.stack.nodes, hs with
-      | x :: xs, _ => simp [exec_events]
-    · have := ih (handleReceived p m).2.2 (by rw [hnodes]; exact ha.2) (by rw [handle_dflt, hnodes]; exact hw.2)
-      rw [this, handle_dflt, hnodes]
-
 /-! ### the property -/
 
 /-- The full statement, against the DOCUMENTED stack: for every default behaviour and every
@@ -275,67 +227,29 @@ def C14_full : Prop :=
     (run (PID.init d) msgs).1 = docHandlers d msgs
     ∧ runEvents (PID.init d) msgs = docEvents d [d] msgs
 
-/-- FALSE of the current code: UnBecomeStacked with nothing stacked ("No effect if there is no
-    stack" in the documentation) pops the base behaviour; the next message has no handler. -/
-theorem C14_refuted : ¬ C14_full := by
-  intro h
-  have := (h 0 [[.unbecomeStacked], []]).1
-  revert this
-  decide
+theorem C14_holds : C14_full := fun d msgs =>
+  ⟨run_eq_doc (PID.init d) msgs (good_init d), run_events (PID.init d) msgs (good_init d)⟩
 
-/-- the witness, spelled out: message 1 (handled by the default) calls UnBecomeStacked; message 2
-    is dropped by the code, the documentation says the default handles it -/
-example : (run (PID.init 0) [[.unbecomeStacked], []]).1 = [some 0, none]
-    ∧ docHandlers 0 [[.unbecomeStacked], []] = [some 0, some 0] := by decide
+/-- the two historical witnesses, now in agreement with the documentation:
+    F6  BecomeStacked 1; UnBecome | UnBecomeStacked | probe     (before c9f88bb the probe went to 1)
+    F1  UnBecomeStacked | probe                                  (before the base guard the probe was dropped) -/
+example : (run (PID.init 0) [[.becomeStacked 1, .unbecome], [.unbecomeStacked], []]).1 = [some 0, some 0, some 0]
+    ∧ (run (PID.init 0) [[.unbecomeStacked], []]).1 = [some 0, some 0] := by decide
 
-/-- TRUE for every stream and all scripts in which UnBecomeStacked is only called while something
-    is stacked above the base (`wellFormed`, decidable).  What the guard excludes: exactly the
-    documented-as-no-effect calls of finding C14-F1. -/
-theorem C14_partial (d : Beh) (msgs : List (List Op)) (hw : wellFormed d msgs = true) :
-    (run (PID.init d) msgs).1 = docHandlers d msgs
-    ∧ runEvents (PID.init d) msgs = docEvents d [d] msgs := by
-  constructor
-  · rw [run_eq_plain]
-    exact wf_handlers_agree d [d] msgs (by simp) hw
-  · exact events_agree (PID.init d) msgs (by simp [PID.init, BStack.push, BStack.new]) hw
-
-/-- non-vacuous instance of the guard: the script of the fixed defect F6 (BecomeStacked; UnBecome
-    in one message, a probe) and a deeper push/pop script are well-formed -/
-example : wellFormed 0 [[.becomeStacked 1, .unbecome], [.becomeStacked 2], [.becomeStacked 3, .unbecomeStacked], [.unbecomeStacked], []] = true := by decide
-example : wellFormed 0 [[.unbecomeStacked]] = false := by decide
-example : wellFormed 0 [[.become 1], [.unbecomeStacked]] = false := by decide
-
-/-- under the same guard the stack left behind (what any continuation of the stream will see, and
-    what `Len` reports) is the documented one -/
-theorem C14_partial_stack (d : Beh) (msgs : List (List Op)) (hw : wellFormed d msgs = true) :
+/-- the stack left behind (what any continuation of the stream will see, and what `Len` reports) is the documented one -/
+theorem C14_stack (d : Beh) (msgs : List (List Op)) :
     (run (PID.init d) msgs).2.stack.nodes = docFinal d msgs
     ∧ (run (PID.init d) msgs).2.stack.len = (docFinal d msgs).length := by
-  have h1 : (run (PID.init d) msgs).2.stack.nodes = docFinal d msgs := by
-    rw [run_nodes_plain]
-    exact wf_final_agree d [d] msgs (by simp) hw
-  refine ⟨h1, ?_⟩
+  have h := run_final (PID.init d) msgs (good_init d)
+  refine ⟨h.1, ?_⟩
   unfold BStack.len
-  rw [run_len_inv (PID.init d) msgs rfl, h1]
+  rw [h.2.len, h.1]
+  rfl
 
-/-- under the guard every message gets a handler (the actor never goes deaf) -/
-theorem C14_partial_never_deaf (d : Beh) (msgs : List (List Op)) (hw : wellFormed d msgs = true) :
+/-- every message gets a handler: the actor can never lose its last behaviour -/
+theorem C14_never_deaf (d : Beh) (msgs : List (List Op)) :
     ∀ h ∈ (run (PID.init d) msgs).1, h.isSome = true := by
-  rw [(C14_partial d msgs hw).1]
+  rw [(C14_holds d msgs).1]
   exact doc_handlers_some d [d] (by simp) msgs
-
-/-- Unguarded characterisation of the code, ALL streams and scripts: it is the naive stack in
-    which UnBecomeStacked also pops the base; and the `length` counter equals the node count. -/
-theorem C14_plain_holds (d : Beh) (msgs : List (List Op)) :
-    (run (PID.init d) msgs).1 = plainHandlersFrom d [d] msgs
-    ∧ (run (PID.init d) msgs).2.stack.length = (run (PID.init d) msgs).2.stack.nodes.length :=
-  ⟨run_eq_plain (PID.init d) msgs, run_len_inv (PID.init d) msgs rfl⟩
-
-/-- and once the base is popped, every later message is ignored, whatever it would have asked for -/
-theorem C14_deaf_forever (d : Beh) (pre post : List (List Op))
-    (h : (run (PID.init d) pre).2.stack.nodes = []) :
-    (run (run (PID.init d) pre).2 post).1 = List.replicate post.length none :=
-  (deaf_absorbing _ h post).1
-
-example : (run (PID.init 0) [[.become 1], [.unbecomeStacked]]).2.stack.nodes = [] := by decide
 
 end GoaktVerif.C14
